@@ -1,5 +1,7 @@
 import WebrtcVerif.Model.Ops
 import WebrtcVerif.Proofs.OpsLemmas
+import WebrtcVerif.Proofs.OpsNegLemmas
+import WebrtcVerif.Proofs.OpsTermLemmas
 /-!
 # C05 — Queued negotiation work runs serially, in order, exactly once
 
@@ -7,53 +9,63 @@ import WebrtcVerif.Proofs.OpsLemmas
 runs exactly once. Waiting for the queue returns only after everything queued before the wait has run.
 After a graceful close, nothing queued later runs."
 
-All theorems quantify over `Reachable nc nd s`: every state reachable by ANY interleaving of the atomic
+All theorems quantify over `Reachable m nc nd nn s`: every state reachable by ANY interleaving of the atomic
 sections of any number of enqueuers (incl. items that enqueue further items — an `enqueue` action may
-happen while a worker is `running`), `nd` Done callers, `nc` GracefulClose callers and the workers.
+happen while a worker is `running`), `nd` Done callers, `nc` GracefulClose callers, `nn` API goroutines
+inside `PeerConnection.onNegotiationNeeded`, raw flag setters and the workers, for each of the three
+behaviours `m` of the worker's negotiation-needed callback (nothing / enqueue a check / what
+`PeerConnection.onNegotiationNeeded` does: re-arm the flag when the queue is not empty, else enqueue the
+check).  The end of `operations.start` is modelled step by step (`Load`, `Store(false)`, callback, and
+inside the callback `IsEmpty()` and then the store / Enqueue), so other goroutines interleave between
+any two of these steps.
+
+"Negotiation-needed checks … each item runs exactly once" includes that a requested check is not lost:
+`C05_neg_request_not_lost` and its corollaries; `C05_swapped_order_loses_request` shows that the clause
+has teeth (calling the callback BEFORE clearing the flag violates it).
 -/
 namespace WebrtcVerif.C05
 open WebrtcVerif.Ops
 
 /-- One item at a time: at most one worker goroutine is alive, and exactly one iff `busyCh ≠ nil`. -/
-theorem C05_single_worker {nc nd : Nat} {s : St} (h : Reachable nc nd s) :
+theorem C05_single_worker {m : NegMode} {nc nd nn : Nat} {s : St} (h : Reachable m nc nd nn s) :
     liveWorkers s = (if s.busy.isSome then 1 else 0) := by
   exact (opsInv_of_reachable h).live
 
 /-- In queue order, at most once: what was accepted is exactly what has started, then what a worker
     holds, then what is still queued — in acceptance order. -/
-theorem C05_fifo {nc nd : Nat} {s : St} (h : Reachable nc nd s) :
+theorem C05_fifo {m : NegMode} {nc nd nn : Nat} {s : St} (h : Reachable m nc nd nn s) :
     s.accepted = s.executed ++ held s ++ s.queue := by
   exact (opsInv_of_reachable h).fifo
 
 /-- No item starts twice. -/
-theorem C05_at_most_once {nc nd : Nat} {s : St} (h : Reachable nc nd s) : s.executed.Nodup := by
+theorem C05_at_most_once {m : NegMode} {nc nd nn : Nat} {s : St} (h : Reachable m nc nd nn s) : s.executed.Nodup := by
   have hi := opsInv_of_reachable h
   have hn := hi.nodup
   rw [hi.fifo, List.append_assoc] at hn
   exact (List.nodup_append.mp hn).1
 
 /-- Exactly once: when no worker is left, every accepted item has run (nothing is stranded). -/
-theorem C05_exactly_once {nc nd : Nat} {s : St} (h : Reachable nc nd s) (hq : quiescent s) :
+theorem C05_exactly_once {m : NegMode} {nc nd nn : Nat} {s : St} (h : Reachable m nc nd nn s) (hq : quiescent s) :
     s.executed = s.accepted := by
   exact (opsInv_of_reachable h).executed_eq_of_quiescent hq
 
 /-- Nothing is stranded, stated as progress: while an accepted item has not started, some worker
     action is enabled. -/
-theorem C05_no_strand {nc nd : Nat} {s : St} (h : Reachable nc nd s) (hne : s.executed ≠ s.accepted) :
-    ∃ w, (step s (.pop w)).isSome ∨ (step s (.exec w)).isSome ∨ (step s (.afterLoop w)).isSome
-      ∨ (step s (.deferred w)).isSome := by
-  exact (opsInv_of_reachable h).worker_enabled hne
+theorem C05_no_strand {m : NegMode} {nc nd nn : Nat} {s : St} (h : Reachable m nc nd nn s)
+    (hne : s.executed ≠ s.accepted) :
+    ∃ w, ∃ a ∈ workerActions w, (step m s a).isSome = true := by
+  exact (opsInv_of_reachable h).worker_enabled m hne
 
 /-- `Done` returns only after everything that had been accepted when it was called has started (and,
     the worker being single, finished) — whether its waiter was queued or the queue was already closed. -/
-theorem C05_done_after_predecessors {nc nd : Nat} {s : St} (h : Reachable nc nd s) (d : Nat)
+theorem C05_done_after_predecessors {m : NegMode} {nc nd nn : Nat} {s : St} (h : Reachable m nc nd nn s) (d : Nat)
     (hd : s.doners[d]? = some .returned) (snap : List Item) (hs : s.doneSnap[d]? = some snap) :
     ∀ it ∈ snap, it ∈ s.executed := by
   exact (opsInv_of_reachable h).done.donerRet d snap hd hs
 
 /-- The snapshot is what it says: when `Done` is called, the snapshot becomes the items accepted so far. -/
-theorem C05_done_snapshot {nc nd : Nat} {s s' : St} (hr : Reachable nc nd s) (d : Nat)
-    (h : step s (.doneBegin d) = some s') : s'.doneSnap[d]? = some s.accepted := by
+theorem C05_done_snapshot {m : NegMode} {nc nd nn : Nat} {s s' : St} (hr : Reachable m nc nd nn s) (d : Nat)
+    (h : step m s (.doneBegin d) = some s') : s'.doneSnap[d]? = some s.accepted := by
   have hlen := (opsInv_of_reachable hr).snap_length
   simp only [step] at h
   split at h
@@ -71,8 +83,8 @@ theorem C05_done_snapshot {nc nd : Nat} {s s' : St} (hr : Reachable nc nd s) (d 
   · cases h
 
 /-- After a graceful close nothing is accepted any more … -/
-theorem C05_nothing_accepted_after_close {nc nd : Nat} {s s' : St} (h : Reachable nc nd s)
-    (hc : s.isClosed = true) (it : Item) (hs : step s (.enqueue it) = some s') :
+theorem C05_nothing_accepted_after_close {m : NegMode} {nc nd nn : Nat} {s s' : St} (h : Reachable m nc nd nn s)
+    (hc : s.isClosed = true) (it : Item) (hs : step m s (.enqueue it) = some s') :
     s'.accepted = s.accepted ∧ s'.queue = s.queue ∧ s'.workers = s.workers := by
   have _ := h  -- (not needed: holds in every state, reachable or not)
   simp only [step] at hs
@@ -84,7 +96,7 @@ theorem C05_nothing_accepted_after_close {nc nd : Nat} {s s' : St} (h : Reachabl
 
 /-- … and once the closing `GracefulClose` has returned, everything accepted before has run and no
     worker exists (so nothing runs later). -/
-theorem C05_close_returns_after_drain {nc nd : Nat} {s : St} (h : Reachable nc nd s) (c : Nat)
+theorem C05_close_returns_after_drain {m : NegMode} {nc nd nn : Nat} {s : St} (h : Reachable m nc nd nn s) (c : Nat)
     (hc : s.closers[c]? = some .returned) :
     s.isClosed = true ∧ s.busy = none ∧ liveWorkers s = 0 ∧ s.executed = s.accepted := by
   have hi := opsInv_of_reachable h
@@ -96,7 +108,7 @@ theorem C05_close_returns_after_drain {nc nd : Nat} {s : St} (h : Reachable nc n
   exact ⟨hi.closed c _ hc (by simp), hb, hl, hi.executed_eq_of_quiescent hl⟩
 
 /-- The deferred block never closes a nil channel. -/
-theorem C05_deferred_has_channel {nc nd : Nat} {s : St} (h : Reachable nc nd s) (w : Nat)
+theorem C05_deferred_has_channel {m : NegMode} {nc nd nn : Nat} {s : St} (h : Reachable m nc nd nn s) (w : Nat)
     (hw : s.workers[w]? = some .defer_) : s.busy.isSome = true := by
   have hi := opsInv_of_reachable h
   have hpos := liveL_pos_of_getElem? hw rfl
@@ -108,10 +120,188 @@ theorem C05_deferred_has_channel {nc nd : Nat} {s : St} (h : Reachable nc nd s) 
 -- non-vacuity: a concrete interleaving (the schedule that stranded an operation before the repair):
 -- enqueue 1; worker pops and runs it; pops nil; enqueue 2 arrives; GracefulClose begins; the worker's
 -- deferred block hands off; second worker runs 2; closer re-checks and returns.
-example : (runActions (init 1 0)
+example : (runActions .none (init 1 0 0)
     [.enqueue (.op 1), .pop 0, .exec 0, .pop 0, .enqueue (.op 2), .gcBegin 0, .afterLoop 0, .deferred 0,
      .gcWake 0, .gcRecheck 0, .pop 1, .exec 1, .pop 1, .afterLoop 1, .deferred 1, .gcWake 0, .gcRecheck 0]).map
       (fun s => (s.executed, s.closers, liveWorkers s))
     = some ([.op 1, .op 2], [.returned], 0) := by decide
+
+/-! ### a requested negotiation-needed check is not lost
+
+`owed s` = the last event of the ghost log `negLog` is a request (a call of onNegotiationNeeded by anyone —
+its `IsEmpty()` test —, or a raw flag store), i.e. a request was raised after the last check operation
+started to run.  A check that starts after the request evaluates the state the request was about, so
+"owed" is exactly "requested and not yet served". -/
+
+/-- The worker never calls the callback before it has cleared the flag, and it always calls it afterwards:
+    in every reachable state, while a request is owed, the queue is closed, or the flag is still set, or a
+    check is accepted and not yet started, or a worker is between `Store(false)` and the end of its
+    callback, or an API goroutine is in the middle of onNegotiationNeeded.  (Any callback that honours
+    requests: modes `enqueue` and `rearm`.) -/
+theorem C05_neg_request_not_lost {m : NegMode} (hm : m ≠ .none) {nc nd nn : Nat} {s : St}
+    (h : Reachable m nc nd nn s) : NegInv s :=
+  negInv_of_reachable hm h
+
+/-- At rest (no worker, nobody inside onNegotiationNeeded, queue open) an owed request is parked in the
+    flag — it has not been dropped, the end of the next chain serves it. -/
+theorem C05_neg_quiescent_parked {m : NegMode} (hm : m ≠ .none) {nc nd nn : Nat} {s : St}
+    (h : Reachable m nc nd nn s) (hq : quiescent s) (hn : ∀ pc ∈ s.callers, pc.midCall = false)
+    (hc : s.isClosed = false) (ho : owed s = true) : s.flag = true := by
+  rcases (negInv_of_reachable hm h).quiescent (opsInv_of_reachable h) hq hn ho with h1 | h1
+  · rw [hc] at h1; cases h1
+  · exact h1
+
+/-- At rest with the flag clear, every request has been followed by a check that ran. -/
+theorem C05_neg_quiescent_served {m : NegMode} (hm : m ≠ .none) {nc nd nn : Nat} {s : St}
+    (h : Reachable m nc nd nn s) (hq : quiescent s) (hn : ∀ pc ∈ s.callers, pc.midCall = false)
+    (hc : s.isClosed = false) (hf : s.flag = false) : owed s = false := by
+  cases ho : owed s with
+  | false => rfl
+  | true =>
+    have := C05_neg_quiescent_parked hm h hq hn hc ho
+    rw [hf] at this; cases this
+
+/-- "Parked" means exactly "stored too late": a flag that is still set at rest was stored after every
+    worker's flag test (`unseen`) — no end of chain has seen it and left it standing. -/
+theorem C05_flag_at_rest_unseen {m : NegMode} {nc nd nn : Nat} {s : St} (h : Reachable m nc nd nn s)
+    (hq : quiescent s) (hf : s.flag = true) : s.unseen = true := by
+  rcases flagInv_of_reachable h hf with h1 | h1
+  · exact h1
+  · have := not_mem_of_liveL_zero hq _ h1
+    cases this
+
+/-- Progress for requests (no deadlock): while a request is owed and neither parked in the flag nor
+    dropped by a close, an action of a worker or of a goroutine inside onNegotiationNeeded is enabled.
+    What liveness is claimed: this (no deadlock), `C05_system_terminates` (the queue's own goroutines
+    cannot run forever by themselves) and `C05_system_rest` (where they stop, everything is served).
+    What is ASSUMED for "the check eventually runs": weak fairness for the worker goroutine and the API
+    goroutines (an enabled step of theirs is eventually taken — Go's scheduler), operations return (an
+    `exec` is followed by the next `pop`), and the environment eventually stops enqueueing / requesting. -/
+theorem C05_neg_progress {m : NegMode} (hm : m ≠ .none) {nc nd nn : Nat} {s : St}
+    (h : Reachable m nc nd nn s) (ho : owed s = true) (hc : s.isClosed = false) (hf : s.flag = false) :
+    (∃ w, ∃ a ∈ workerActions w, (step m s a).isSome = true) ∨ (∃ n, (step m s (.negAct n)).isSome = true) := by
+  have hi := opsInv_of_reachable h
+  rcases negInv_of_reachable hm h ho with h1 | h1 | h1 | h1 | h1
+  · rw [hc] at h1; cases h1
+  · rw [hf] at h1; cases h1
+  · obtain ⟨x, hx, _, hne⟩ := h1
+    left
+    apply hi.worker_enabled m
+    intro he
+    rw [he] at hne
+    exact hne hx
+  · obtain ⟨p, hp, hpm⟩ := h1
+    obtain ⟨w, hw⟩ := List.getElem?_of_mem hp
+    exact Or.inl ⟨w, hi.live_worker_enabled m hw (WPc.live_of_midCall hpm)⟩
+  · obtain ⟨p, hp, hpm⟩ := h1
+    obtain ⟨n, hn⟩ := List.getElem?_of_mem hp
+    right
+    refine ⟨n, ?_⟩
+    cases p with
+    | tested e => simp [step, hn]
+    | idle => cases hpm
+    | returned => cases hpm
+
+/-- The worker's own re-arm is never parked: its callback stores the flag only while an item is queued
+    behind it (nobody else pops), so its deferred block hands off and the successor's end of chain sees
+    the flag. -/
+theorem C05_worker_rearm_has_successor {m : NegMode} {nc nd nn : Nat} {s : St}
+    (h : Reachable m nc nd nn s) (w : Nat) (hw : s.workers[w]? = some (.cb false)) : s.queue ≠ [] :=
+  (termInv_of_reachable h).hasItem w _ hw rfl
+
+/-- Termination of the queue side, for every callback mode: from any reachable state the queue's own
+    goroutines (workers: pop, run, flag load, flag clear, callback; the deferred hand-off; the second half
+    of onNegotiationNeeded calls — `sysAct`) can take only boundedly many steps by themselves.  In
+    particular the worker's re-arm / hand-off / callback cycle of mode `rearm` cannot spin: every re-arm
+    consumes a queued item, every check the callback queues consumes the flag. -/
+theorem C05_system_terminates {m : NegMode} {nc nd nn : Nat} {s : St} (h : Reachable m nc nd nn s) :
+    ∃ bound : Nat, ∀ (acts : List Action) (s' : St), (∀ a ∈ acts, sysAct a = true) →
+      runActions m s acts = some s' → acts.length ≤ bound := by
+  refine ⟨mu s, ?_⟩
+  intro acts s' hall hr
+  have := mu_run h acts hall hr
+  omega
+
+/-- Where the queue's own goroutines have nothing left to do, all work is done: no worker is left, every
+    accepted item has run, nobody is inside onNegotiationNeeded, and (callback honouring requests, queue
+    open, flag clear) no request is owed. -/
+theorem C05_system_rest {m : NegMode} {nc nd nn : Nat} {s : St} (h : Reachable m nc nd nn s)
+    (hrest : ∀ a, sysAct a = true → step m s a = none) :
+    quiescent s ∧ s.executed = s.accepted ∧ (∀ pc ∈ s.callers, pc.midCall = false)
+      ∧ (m ≠ .none → s.isClosed = false → s.flag = false → owed s = false) := by
+  have hi := opsInv_of_reachable h
+  have hq : quiescent s := by
+    show liveL s.workers = 0
+    rcases Nat.eq_zero_or_pos (liveL s.workers) with h0 | h0
+    · exact h0
+    · obtain ⟨w, pc, hw, hl⟩ := exists_live_of_liveL_pos h0
+      obtain ⟨a, ha, hen⟩ := hi.live_worker_enabled m hw hl
+      rw [hrest a (sysAct_of_workerActions ha)] at hen
+      cases hen
+  have hn : ∀ pc ∈ s.callers, pc.midCall = false := by
+    intro pc hp
+    cases pc with
+    | tested e =>
+      obtain ⟨n, hn⟩ := List.getElem?_of_mem hp
+      have : (step m s (.negAct n)).isSome = true := by simp [step, hn]
+      rw [hrest (.negAct n) rfl] at this
+      cases this
+    | idle => rfl
+    | returned => rfl
+  exact ⟨hq, hi.executed_eq_of_quiescent hq, hn,
+    fun hm hc hf => C05_neg_quiescent_served hm h hq hn hc hf⟩
+
+/-- The clause has teeth: with the last two steps of `start` swapped (callback first, `Store(false)`
+    afterwards — `stepSw`) a request is lost.  Op 1 runs; the worker pops nil; op 2 is enqueued and the
+    flag is set; the worker loads the flag, calls the callback, which finds the queue non-empty and
+    re-arms the flag; the worker then clears it.  The run continues to rest: flag clear, queue open, both
+    ops ran, no check ever ran although two requests were raised. -/
+theorem C05_swapped_order_loses_request :
+    ¬ (∀ (acts : List Action) (s : St), runActionsSw (init 0 0 0) acts = some s → NegInv s) := by
+  intro hall
+  have h := hall [.enqueue (.op 1), .pop 0, .exec 0, .pop 0, .enqueue (.op 2), .setFlag,
+    .afterLoop 0, .cbBegin 0, .cbAct 0, .clearFlag 0] _ rfl
+  revert h
+  decide
+
+-- the swapped run at rest: nothing left to do, flag clear, a request owed — the same schedule on the real
+-- order ends with the check having run (next example)
+example : (runActionsSw (init 0 0 0)
+    [.enqueue (.op 1), .pop 0, .exec 0, .pop 0, .enqueue (.op 2), .setFlag,
+     .afterLoop 0, .cbBegin 0, .cbAct 0, .clearFlag 0, .deferred 0,
+     .pop 1, .exec 1, .pop 1, .afterLoop 1, .deferred 1]).map
+      (fun s => (s.executed, liveWorkers s, s.flag, s.isClosed, owed s, decide (NegInv s)))
+    = some ([.op 1, .op 2], 0, false, false, true, false) := by decide
+
+-- non-vacuity of the request theorems (mode rearm): the same interleaving on the real order — the worker
+-- re-arms, hands off, the successor's end of chain sees the flag, finds the queue empty and queues the
+-- check, which runs.
+example : (runActions .rearm (init 0 0 0)
+    [.enqueue (.op 1), .pop 0, .exec 0, .pop 0, .enqueue (.op 2), .setFlag,
+     .afterLoop 0, .clearFlag 0, .cbBegin 0, .cbAct 0, .deferred 0,
+     .pop 1, .exec 1, .pop 1, .afterLoop 1, .clearFlag 1, .cbBegin 1, .cbAct 1, .deferred 1,
+     .pop 2, .exec 2, .pop 2, .afterLoop 2, .deferred 2]).map
+      (fun s => (s.executed, liveWorkers s, s.flag, owed s))
+    = some ([.op 1, .op 2, .check 0], 0, false, false) := by decide
+
+-- the "parked" case of `C05_neg_quiescent_parked` is real (an observation about the unchanged code, not
+-- covered by the property text): an API goroutine finds the queue non-empty, the worker finishes and
+-- exits, then the goroutine stores the flag — the request waits in the flag until some later chain ends.
+example : (runActions .rearm (init 0 0 1)
+    [.enqueue (.op 1), .negTest 0, .pop 0, .exec 0, .pop 0, .afterLoop 0, .deferred 0, .negAct 0]).map
+      (fun s => (s.executed, liveWorkers s, s.flag, s.callers, owed s))
+    = some ([.op 1], 0, true, [.returned], true) := by decide
+
+-- hypotheses of `C05_neg_progress` / `C05_worker_rearm_has_successor` are satisfiable: a worker inside the
+-- callback that found the queue busy, request owed, flag clear, queue open
+example : (runActions .rearm (init 0 0 0)
+    [.enqueue (.op 1), .pop 0, .exec 0, .pop 0, .enqueue (.op 2), .setFlag, .afterLoop 0, .clearFlag 0,
+     .cbBegin 0]).map (fun s => (s.workers, owed s, s.flag, s.isClosed, s.queue))
+    = some ([.cb false], true, false, false, [.op 2]) := by decide
+
+-- hypothesis of `C05_system_rest` is satisfiable (the initial state is at rest)
+example : ∀ a, sysAct a = true → step .rearm (init 1 1 0) a = none := by
+  intro a ha
+  cases a <;> simp [sysAct] at ha <;> simp [step, init]
 
 end WebrtcVerif.C05
